@@ -1095,6 +1095,10 @@ def _part_t(task, rec):
         rec.violation(key, what, case, expected=expected, observed=observed)
 
     for td, tb, style in [tuple(t) for t in task['tols']]:
+        if tol_eff(tb) > 0.1 * budget:
+            # a budget tolerance of the order of the budget asks for nothing (spending nothing would do)
+            rec.count('skipped_out_of_domain:budget-tolerance-not-small-against-the-budget')
+            continue
         tc = tol_class(td, tb)
         tn = tol_name(td, tb)
         rec.count('tolerance_class:' + tc)
@@ -1219,8 +1223,13 @@ def order_class(labels, index_to_key):
     return 'sorted-order==position-order' if list(index_to_key) == sorted(labels) else 'sorted-order!=position-order'
 
 
-CMP_SAME = 1e-7    # reference objectives of the two answers agree to this: a reported difference does not exist
-CMP_DIFF = 1e-3    # ... differ by this: np.isclose (1e-5) cannot hold, the difference must be reported
+# the comparison reports a difference when not np.isclose(a, b), i.e. |a - b| > 1e-8 + 1e-5 |b|.  With the reference
+# objectives of the two answers: a gap 100 times inside that threshold does not exist, 100 times outside must be reported
+CMP_MARGIN = 100.0
+
+
+def isclose_threshold(b):
+    return 1e-8 + 1e-5 * abs(b)
 
 
 def comparison_symptoms(ref, budget, eps, bis, bf, kinds):
@@ -1231,7 +1240,7 @@ def comparison_symptoms(ref, budget, eps, bis, bf, kinds):
     scale = max(1.0, budget)
     if check_bruteforce(ref, budget, bf) or abs(sum(bis) - budget) > BUDGET_TOL * scale or any(v < 0 for v in bis):
         return out      # reported by its own clause
-    if 'constraint' in kinds and abs(sum(bis) - sum(bf)) <= 1e-7 * budget:
+    if 'constraint' in kinds and abs(sum(bis) - sum(bf)) <= isclose_threshold(budget) / CMP_MARGIN:
         out.append(('reports-a-difference-of-the-budget-constraint-between-two-budget-exhausting-forecasts',
                     f'sum bisection {sum(bis)!r} sum brute force {sum(bf)!r}'))
     try:
@@ -1239,11 +1248,11 @@ def comparison_symptoms(ref, budget, eps, bis, bf, kinds):
         ol = ref.objective(bis, eps)
     except (ValueError, OverflowError, ZeroDivisionError):
         return out
-    rel = abs(ob - ol) / max(1.0, abs(ob), abs(ol))
-    if 'objective' in kinds and rel <= CMP_SAME:
+    thr = min(isclose_threshold(ob), isclose_threshold(ol))
+    if 'objective' in kinds and abs(ob - ol) <= thr / CMP_MARGIN:
         out.append(('reports-a-difference-of-the-objective-that-does-not-exist',
                     f'objective of the bisection answer {ol!r}, of the brute-force answer {ob!r}'))
-    if 'objective' not in kinds and rel > CMP_DIFF:
+    if 'objective' not in kinds and abs(ob - ol) > CMP_MARGIN * max(isclose_threshold(ob), isclose_threshold(ol)):
         out.append(('does-not-report-the-difference-of-the-objective',
                     f'objective of the bisection answer {ol!r}, of the brute-force answer {ob!r}'))
     return out
@@ -1430,8 +1439,9 @@ def _part_b(task, rec):
     done = set()
     for li, clause, what, expected, observed in fails:
         everywhere = all(any(l2 == lj and c2 == clause for l2, c2, *_ in fails) for lj in range(len(labs)))
-        cls = 'any' if (everywhere or clause.startswith('brute-force-') or clause == 'worse-than-brute-force' or len(labs) == 1) else classes[li]
-        key = vkey(clause, cfg, task.get('force_cls') or cls)
+        one_lab_only = len(labs) == 1 or (clause.startswith('forecast-brute-force-api') and task.get('routes', 'all') != 'all')
+        cls = 'any' if (everywhere or clause.startswith('brute-force-') or clause == 'worse-than-brute-force' or one_lab_only) else classes[li]
+        key = vkey(clause, cfg, cls)
         if key in done:
             rec.count('further_witnesses_of_a_reported_key')
             continue
@@ -1439,7 +1449,7 @@ def _part_b(task, rec):
         rec.violation(key, what, dict(base_case, cls=cls), expected=expected, observed=observed)
     # the comparison: symptoms seen only under a labeling whose sorted order differs from the positions are ONE finding
     for li, sym, what, observed in cmp_fails:
-        natural_too = any(classes[l2] == 'sorted-order==position-order' for l2, *_ in cmp_fails)
+        natural_too = any(classes[l2] == 'sorted-order==position-order' and s2 == sym for l2, s2, *_ in cmp_fails)
         if classes[li] == 'sorted-order!=position-order' and not natural_too:
             key = 'C18|forecast-comparison-depends-on-labeling|labeling:sorted-order!=position-order'
         else:
@@ -1835,6 +1845,8 @@ def tasks(tier, seed):
         else:
             for pset in psets:
                 for budget in (1.0, 10.0, BIG_BUDGET):
+                    if budget == 1.0 and pset != 'D':
+                        continue
                     # natural labels, then labelings whose sorted order differs from the positions (8, 9, 11) or not (6)
                     use = [labs[0], labs[6], labs[11]] if budget == 1.0 else [labs[0], labs[8], labs[9]]
                     t.append(dict(part='b', cfg=cfg, pset=pset, budget=budget, ndraws=3, labs=use, routes='all', seed=seed))
